@@ -47,6 +47,11 @@ pub fn install_panic_hook() {
             "<non-string panic payload>".to_string()
         };
         let loc = info.location().map(|l| format!(" at {}:{}", l.file(), l.line())).unwrap_or_default();
+        if msg.contains("unsafe precondition") || msg.contains("cannot unwind") || msg.contains("during cleanup") {
+            // about to abort: this is the only chance to say why (the driver classifies the dead worker by this text)
+            let prev = LAST_PANIC.with(|p| p.borrow().clone()).unwrap_or_default();
+            eprintln!("non-unwinding panic: {msg}{loc} (previous panic: {prev})");
+        }
         LAST_PANIC.with(|p| *p.borrow_mut() = Some(format!("{msg}{loc}")));
     }));
 }
